@@ -162,8 +162,14 @@ def replay(core, mod, path):
         mod_exec = mod.PHASE_MODULES[rep["phase"]]
     else:
         mod_exec = mod
+    tail = ""
+    if isinstance(spec, dict) and "sequence" in spec:
+        mod_exec = core.SequenceModule(mod_exec)  # several runs, one process: state kept between independent objects
+        tail = ":depends-on-earlier-runs-in-the-same-process"
     out = core.execute_isolated(mod_exec, spec, keep_log=10000)
     sig = core.outcome_sig(out)
+    if sig is not None:
+        sig += tail
     for line in out.get("log") or []:
         print("  " + line)
     if out["outcome"] in ("harness", "invalid"):
@@ -265,6 +271,7 @@ def batch(core, mod, prop, seed, n, args, scratch, t0):
     replay_paths = []
     seen_sigs = set()
     collateral = []
+    tried_predecessors = []  # the (expensive) attempt to reproduce a run together with its predecessors is made once
     for idx, v in new_violations:
         if v["sig"] in seen_sigs or (collateral and v["sig"].startswith(("process-died", "process-hung"))):
             continue
@@ -276,6 +283,25 @@ def batch(core, mod, prop, seed, n, args, scratch, t0):
         spec = core.make_spec(vmod, seed, idx)
         first = core.execute_isolated(vmod, spec)
         sig = core.outcome_sig(first)
+        if sig is None and not tried_predecessors:
+            # clean in a process of its own: does it come back after the runs that preceded it in its worker process?
+            # Then the code under test keeps state between independent objects (module- or class-level), which is what
+            # the violation is about; the replay is the sequence of specs.
+            tried_predecessors.append(idx)
+            rep = core.reproduce_with_predecessors(vmod, seed, idx, v["sig"], start_index=args.start)
+            if rep is not None:
+                seq_spec, out = rep
+                sig2 = core.outcome_sig(out) + ":depends-on-earlier-runs-in-the-same-process"
+                rdir = os.environ.get("VERIF_REPLAY_DIR") or os.path.join(HERE, "replays")
+                os.makedirs(rdir, exist_ok=True)
+                path = os.path.join(rdir, f"{prop}-{seed}-{idx}.json")
+                with open(path, "w") as f:
+                    json.dump({"property": prop, "verif_seed": seed, "run_index": idx, "signature": sig2, "phase": phase,
+                               "detail": (out.get("violation") or {}).get("detail"), "original_ops": len(spec["ops"]),
+                               "minimised_ops": len(spec["ops"]), "runs_in_sequence": seq_spec["indices"], "digest": None,
+                               "spec": seq_spec, "event_log": out.get("log")}, f, indent=1, default=core._json_default)
+                replay_paths.append((path, sig2, idx))
+                continue
         if sig is None and v["sig"].startswith(("process-died", "process-hung")):
             # a worker died or hung at this run, but the run is clean in a process of its own: the worker's memory was
             # damaged by an earlier run of the same process (compiled code). That earlier run reports its own
